@@ -1525,6 +1525,50 @@ def r_step(P, L, s, d):
     return None
 
 
+def r_unit_counter(P, L, s, d):
+    """A 64-bit counter kept in a field of `self` and advanced by exactly 1 (`self.n += 1`, `self.n.set(self.n.get() + 1)`):
+    one step per execution of the statement, so wrapping needs 2^63 executions — the step rule's argument, for any function."""
+    if d["kind"] == "assert" and d["construct"] == "Overflow(Add)" and d.get("b") == "1":
+        op_a = s.term["msg"]["a"]
+        lty = s.body.local_ty(op_a["l"]) if op_a.get("k") in ("copy", "move") and not op_a["p"] else op_a.get("ty", "")
+        a = d.get("a", "")
+        m = re.fullmatch(r"(?:Cell::get\()?(self(?:\.\w+)+)\)?", a)
+        if lty in ("u64", "usize", "i64", "u128", "i128") and m:
+            place = m.group(1)
+            summ = "AddWithOverflow(%s, 1).0" % a
+            stored = False
+            for bb in sorted(s.body.reachable_blocks()):
+                for i, st in enumerate(s.body.blocks[bb]["stmts"]):
+                    if st["s"] == "assign" and st["lhs"]["p"] and canon(P.sl(s.body).rvalue(st["rv"], bb, i)) == summ:
+                        stored = True
+                t = s.body.term(bb)
+                if t["t"] == "call" and callee_name(t)[0] == "std::cell::Cell::set":
+                    aa = [canon(x) for x in P.call_arg_terms(s.body, bb)]
+                    if aa == [place, summ]:
+                        stored = True
+            # nobody else moves the counter: its only other writers are constructors (a struct literal), so it starts at what they
+            # put there and only ever takes unit steps (a counter that user data could set near the top would not qualify)
+            owner = re.sub(r"^&('\w+ )?(mut )?", "", s.body.locals[1]["ty"]).split("<")[0] if s.body.arg_count >= 1 else ""
+            fld = place.split(".")[1] if "." in place else ""
+            others = []
+            if stored and owner and fld and place.count(".") == 1:
+                for (wb, wbb, wi, kind) in P.field_writers(owner, fld):
+                    if wb is s.body:
+                        continue
+                    others.append((wb.name, kind))
+                for bb in sorted(s.body.reachable_blocks()):     # Cell::set elsewhere on the same field
+                    pass
+                for ob in P.f.hand_bodies():
+                    if ob is s.body:
+                        continue
+                    for bb, t in ob.calls():
+                        if callee_name(t)[0] == "std::cell::Cell::set" and canon(P.call_arg_terms(ob, bb)[0]).endswith("." + fld):
+                            others.append((ob.name, "Cell::set"))
+            if stored and not others and place.count(".") == 1:
+                return (True, "step rule: the 64-bit counter %s is advanced by exactly 1 per execution and written nowhere else; it cannot wrap below 2^63 executions (assumption)" % place)
+    return None
+
+
 def r_capacity(P, L, s, d):
     if d["kind"] == "call" and d["construct"] in ("Vec::with_capacity", "vec![x; n]"):
         a = d["args"][-1]
@@ -1844,7 +1888,7 @@ def r_nonzero_divisor(P, L, s, d):
 
 
 RULES = [r_nonzero_divisor, r_min_index, r_driver, r_sigidx, r_rowwidth, r_outidx, r_fold, r_default_unwrap, r_generator_unreachable, r_stk, r_guard_lt, r_position_same,
-         r_position_unwrap, r_func, r_bits_shift, r_step, r_capacity, r_drain_full, r_sort, r_radix, r_uninhabited,
+         r_position_unwrap, r_func, r_bits_shift, r_step, r_unit_counter, r_capacity, r_drain_full, r_sort, r_radix, r_uninhabited,
          r_try_static, r_framedmap, r_refcell, r_gen_range, r_getrandom, r_binoptree_dummy, r_text_span, r_lex_prefix,
          r_header_lex, r_text_pos, r_loop_counter, r_kind_conversion, r_token_api]
 
